@@ -277,7 +277,7 @@ fn main() {
         }
     }
     let inputs: Vec<String> = jobs.iter().map(job_input).collect();
-    let results = run_workers(&["--worker"], &inputs, nw, std::time::Duration::from_secs(10));
+    let results = run_workers(&["--worker"], &inputs, nw, std::time::Duration::from_secs(40));
     let mut seen: BTreeMap<(String, String), u64> = BTreeMap::new();
     let mut queries = 0u64;
     for (j, r) in jobs.iter().zip(results) {
@@ -301,7 +301,7 @@ fn main() {
                     let (small, _) = shrink(&j.text, None, nw);
                     ctx.spec_fail(format!(
                         "editor analysis takes the host process down ({why}: {}) on the text {:?} (shortest failing prefix of {})",
-                        if why == "abort" { "stack overflow or abort inside check_lsp or a query" } else { "no answer within 10 s" },
+                        if why == "abort" { "stack overflow or abort inside check_lsp or a query" } else { "no answer within 40 s" },
                         small, j.label
                     ));
                 }
